@@ -287,20 +287,31 @@ theorem processSignerRequest_ok (s s' : Signer) (m : Signed ReqBody) (ovr : Opti
     r.body.nonce = m.clear.nonce ∧ keysOf r.body.entries = keysOf m.clear.entries ∧
     s'.idKey = s.idKey ∧ s'.proxyKey = s.proxyKey ∧ s'.taKey = s.taKey ∧
     s'.objects = r.body.objects ∧
-    r.body.objects.number = ovr.getD (s.objects.number + 1) := by
+    r.body.objects.number = ovr.getD (s.objects.number + 1) ∧
+    s.objects.number < r.body.objects.number := by
   unfold processSignerRequest at h
   by_cases hv : m.validFor s.proxyKey = true
   · simp only [hv, Bool.not_true, Bool.false_eq_true, if_false] at h
-    cases ha : signAll m.clear.resources { objects := s.objects, serial := s.nextSerial } m.clear.entries with
-    | error x => simp [ha] at h
-    | ok a =>
-      simp only [ha, Except.ok.injEq, Prod.mk.injEq] at h
-      obtain ⟨h1, h2⟩ := h
-      subst h1 h2
-      obtain ⟨hk, hn⟩ := signAll_spec _ _ _ _ ha
-      refine ⟨hv, rfl, rfl, rfl, rfl, ?_, rfl, rfl, rfl, rfl, ?_⟩
-      · simpa [keysOf] using hk
-      · simp [Objects.republish, hn]
+    cases ho : ovr.all fun v => decide (s.objects.number < v) with
+    | false => simp [ho] at h
+    | true =>
+      simp only [ho, Bool.not_true, Bool.false_eq_true, if_false] at h
+      cases ha : signAll m.clear.resources { objects := s.objects, serial := s.nextSerial } m.clear.entries with
+      | error x => simp [ha] at h
+      | ok a =>
+        simp only [ha, Except.ok.injEq, Prod.mk.injEq] at h
+        obtain ⟨h1, h2⟩ := h
+        subst h1 h2
+        obtain ⟨hk, hn⟩ := signAll_spec _ _ _ _ ha
+        have hnum : (a.objects.republish ovr).number = ovr.getD (s.objects.number + 1) := by
+          simp [Objects.republish, hn]
+        refine ⟨hv, rfl, rfl, rfl, rfl, ?_, rfl, rfl, rfl, rfl, hnum, ?_⟩
+        · simpa [keysOf] using hk
+        · show s.objects.number < (a.objects.republish ovr).number
+          rw [hnum]
+          cases ovr with
+          | none => simp
+          | some v => simpa using ho
   · simp [hv] at h
 
 theorem processSignerRequest_error_of_invalid (s : Signer) (m : Signed ReqBody) (ovr : Option Nat)
